@@ -103,7 +103,7 @@ CLAIMS['C03'] = dict(engine='rtc (E3)', category='exploration',
     text='Bounded: tensors returned by Interstitial.diffusivity / elastodiffusion and VacancyMediated.Lij over the catalogue with rate ratios up to e^8. Known findings: Lsv/L1vv asymmetric on low-symmetry crystals, Lss with a negative eigenvalue on one 2D cell.',
     note='Tolerances 1e-8 (1e-5 with origin states: integration accuracy).')
 CLAIMS['C04'] = dict(engine='pyframe degree typing (E2) + symx-lf (E4b) + rtc (E3)', category='exploration',
-    technique='rate covariance as degree contracts checked statement by statement on the extracted AST of VacancyMediated.Lij and the Interstitial rate functions (every sum, comparison, branch condition and cutoff relates equal rate degrees: all inputs, all crystals); relational contracts: for the interstitial calculator the real source is executed on symbolic data and shift / prefactor / rate-scaling invariances are decided as exact rational-function identities per enumerated network; relational run-time contracts (energy shifts, joint prefactor scaling, energy/temperature co-scaling, rate scaling; reused and fresh calculators) as bounded stand-in for both calculators',
+    technique='reference-choice invariances (joint vacancy / solute prefactor scaling, energy-temperature co-scaling) and rate covariance as degree contracts checked statement by statement on the extracted AST of preene2betafree, _symmetricandescaperates, Lij, the Green-function calculator and the Interstitial rate functions (every sum, comparison, branch condition and cutoff relates equal degrees: all inputs, all crystals); relational contracts: for the interstitial calculator the real source is executed on symbolic data and shift / prefactor / rate-scaling invariances are decided as exact rational-function identities per enumerated network; relational run-time contracts (energy shifts, joint prefactor scaling, energy/temperature co-scaling, rate scaling; reused and fresh calculators) as bounded stand-in for both calculators',
     text='Bounded: the four invariances and rate covariance hold to 1e-7 on every catalogue calculator with seeded data, on a reused calculator and on a fresh one.',
     note='Clause (d) (intra-cell displacements) not covered.')
 CLAIMS['C06'] = dict(engine='rtc (E3)', category='exploration',
@@ -171,8 +171,8 @@ CLAIMS['C30'] = dict(engine='rtc (E3)', category='exploration',
          'every Makefile dependency exists or is a relaxed-state CONTCAR of an existing state directory, NEBlist files agree.',
     note='perl and tarfile trusted; nebmake.pl / Vasp.pm only checked for presence.')
 
-CLAIMS['C10'] = dict(engine='rtc (E3)', category='exploration',
-    technique='run-time postconditions of GFCrystalcalc.SetRates/__call__ against independently computed rates: lattice diffusion equation (residual <= 1e-6, or small and shrinking under k-mesh refinement), endpoint swap, space-group invariance, uniform scaling, 3D continuum pole; bounded stand-in',
+CLAIMS['C10'] = dict(engine='pyframe degree typing (E2) + rtc (E3)', category='exploration',
+    technique='uniform rate scaling as degree contracts of GFCrystalcalc.SymmRates / SetRates / Diffusivity / biascorrection / __call__ checked statement by statement on the extracted AST (G has rate degree -1, D degree +1, every stored table degree 0, for all inputs); run-time postconditions of GFCrystalcalc.SetRates/__call__ against independently computed rates: lattice diffusion equation (residual <= 1e-6, or small and shrinking under k-mesh refinement), endpoint swap, space-group invariance, uniform scaling, 3D continuum pole; bounded stand-in',
     text='Bounded: on catalogue crystals and purpose-built cases (diffusing species not listed first and permuted differently from species 0, every site its own network, equivalent and inequivalent disconnected networks) '
          'with seeded non-uniform site energies and rates, the Green function satisfies the lattice equation to the integration accuracy, is symmetric under endpoint swap, invariant under the space group, scales inversely with a uniform rate factor and approaches the continuum pole in 3D.',
     note='Default k-mesh; far field within 1/n at n = kptgrid/4 cells; the residual clause is skipped for the 8 kT data set (k-mesh under-resolved).')
